@@ -46,6 +46,9 @@ def _ref_cases(tier):
                 if level < 0 and any(n % (2 ** -level) for n in shape):
                     continue
                 out.append(dict(shape=shape, payload=payload, level=level))
+    if tier == "quick":
+        out.append(dict(shape=(2, 3), payload="scalar", level=3))
+        out.append(dict(shape=(8, 8), payload="scalar", level=-3))
     out.append(dict(shape=(2, 2, 2), payload="scalar", level=1))
     out.append(dict(shape=(2, 4, 2), payload="scalar", level=-1))
     return out
